@@ -20,7 +20,10 @@ CONSTANTS
   DevWriteLock = FALSE
   DevRouteFirst = FALSE
   DevCleanupFirst = FALSE
-  DevLegRegistered = FALSE
+  RegLegs = {"F"}
+  DevIdleSweep = TRUE
+  DevFwdNoEof = TRUE
+  SrcKinds = @@SK@@
   DevBufio = FALSE
   AttachKinds = @@AK@@
   HoldOn = @@HOLD@@
